@@ -669,6 +669,8 @@ class Exec:
     e_GeneratorExp = e_ListComp
 
     def e_Dict(self, n, st, spec, b):
+        if not n.keys and "dict" in self.world.builtins and getattr(self.cx.c, "id_key_dicts", False):
+            return self.world.builtins["dict"](self, st, [], {}, n, spec)
         keys = [self.ev(k, st, spec, b) for k in n.keys]
         vals = [self.ev(v, st, spec, b) for v in n.values]
         return ObjV("__dict__", {"items": ListV((z3.BoolVal(True), TupV((k, v))) for k, v in zip(keys, vals))})
